@@ -11,7 +11,7 @@ import os
 import common
 import c05
 from c05 import xcall, dump_of, raw_cells, Scratch, write_file
-from bermuda import Triangle
+Triangle = c05.Triangle
 
 
 def read_prefix(path, data, n, **kw):
@@ -21,6 +21,8 @@ def read_prefix(path, data, n, **kw):
 
 
 def correspondence(ctx):
+    if c05.import_failed(ctx):
+        return
     rng = ctx.rng
     drv = common.Driver("drv_c19")
     c05.ensure_tables(ctx, "drv_c19", "Bermuda.Properties.C19")
